@@ -389,9 +389,12 @@ def _p_machine(rng: random.Random, idx: int, dup_names: bool, rich: bool) -> dic
                 nev += 1
                 tgt = rng.choice(paths)
                 s["on"] = {"S1": rng.choice(["#m." + ".".join(tgt), {"target": "#m." + ".".join(tgt), "actions": [f"tr:S1:{nev}"]}])}
-            if s.get("states") and not s.get("parallel") and rng.random() < 0.5:
+            # (completion leads OUT of the completed branch: an onDone that lands on a final child of the same state
+            #  completes it again and again - a self-feeding chain, which is C13's subject, not this family's)
+            away = [t for t in paths if t[:1] != p[:1]]
+            if s.get("states") and not s.get("parallel") and away and rng.random() < 0.5:
                 nev += 1
-                tgt = rng.choice(paths)
+                tgt = rng.choice(away)
                 s["on_done"] = rng.choice(["#m." + ".".join(tgt), {"target": "#m." + ".".join(tgt), "actions": [f"tr:done:{nev}"]}])
             # at most one eventless transition per machine, leaving its source for good (no settle loops)
             outside = [t for t in paths if t[:len(p)] != p and p[:len(t)] != t and t[:1] != p[:1]]
